@@ -7,6 +7,7 @@ SPDX-License-Identifier: Apache-2.0
 package peer
 
 import (
+	"bytes"
 	"encoding/base64"
 	"encoding/json"
 	"errors"
@@ -64,6 +65,17 @@ func (v *VDR) storeDID(doc *did.Doc, by *[]modifiedBy) error { //nolint: unparam
 	val, err := genesisDeltaBytes(doc, by)
 	if err != nil {
 		return err
+	}
+
+	// A peer DID names one document. Whoever sends a message can attach a document under somebody else's DID: a DID
+	// that is already stored keeps its document (storing the very same document again is fine).
+	if stored, getErr := v.Get(doc.ID); getErr == nil && stored != nil {
+		storedBytes, e1 := stored.JSONBytes()
+		docBytes, e2 := doc.JSONBytes()
+
+		if e1 != nil || e2 != nil || !bytes.Equal(storedBytes, docBytes) {
+			return fmt.Errorf("DID %s is already stored with a different document", doc.ID)
+		}
 	}
 
 	return v.store.Put(doc.ID, val)
